@@ -51,8 +51,10 @@ func isOriginAllowed(origin string, allowOrigins []string) (string, bool) {
 			}
 
 			if strings.Contains(allowedURL.Host, "*") {
-				pattern := strings.ReplaceAll(allowedURL.Host, "*.", "(.*\\.)?")
-				pattern = strings.ReplaceAll(pattern, "*", ".*")
+				// every character other than '*' must match literally
+				pattern := regexp.QuoteMeta(allowedURL.Host)
+				pattern = strings.ReplaceAll(pattern, "\\*\\.", "(.*\\.)?")
+				pattern = strings.ReplaceAll(pattern, "\\*", ".*")
 				matched, errMatched := regexp.MatchString("^"+pattern+"$", originURL.Host)
 				if errMatched == nil && matched {
 					return origin, true
